@@ -425,3 +425,108 @@ Proof.
   intros Hm Ho Hs Hn Hb. destruct (runs_alg_ok s Hm Ho Hs n orc Hn Hb) as [(c & E & Hc & _ & Hl)|H]; [left|right; exact H].
   exists c. cbn [find_chain]. auto.
 Qed.
+
+(* ------------------------------------------------------------------------------------------ *)
+(* every configuration, by structure; the ensemble *)
+
+(* a sequence algorithm whose chains come out ascending (true of both families; interface to C08) *)
+Definition seqalg_asc (s : seqalg) : Prop := forall ts c, find_sequence_alg s ts = Ok c -> asc c.
+
+(* what a configuration needs from C08 (sequence algorithm) and C09 (decomposer) *)
+Fixpoint cfg_hyps (a : alg_cfg) : Prop :=
+  match a with
+  | ABinary => True
+  | ADict m s => decomp_ok m /\ seqalg_ok s
+  | ARuns s => decomp_ok (RunLength 0) /\ runlength_ones /\ seqalg_ok s
+  | AOpt a' => cfg_hyps a'
+  | ASeq s => seqalg_ok s /\ seqalg_asc s
+  end.
+
+Theorem find_chain_ok_all a : cfg_hyps a ->
+  forall n orc, 1 <= n -> Z.of_N (bitlen n) < 2 ^ 64 -> find_chain_ok a n orc.
+Proof.
+  induction a as [|m s|s|a IH|s]; cbn [cfg_hyps]; intros H n orc Hn Hb.
+  - now apply binary_ok.
+  - destruct H. now apply dict_ok.
+  - destruct H as (H1 & H2 & H3). now apply runs_ok.
+  - apply opt_ok. now apply IH.
+  - destruct H as [H1 H2]. apply seq_ok; [exact H1|exact Hn|]. intros c. apply H2.
+Qed.
+
+Lemma ensemble_members a : In a ensemble ->
+  (exists m s, a = AOpt (ADict m s) /\ In m ensemble_decomposers /\ In s ensemble_seqalgs) \/
+  (exists s, a = AOpt (ARuns s) /\ In s ensemble_seqalgs).
+Proof.
+  unfold ensemble. intros H. apply in_map_iff in H. destruct H as (b & <- & Hb).
+  apply in_app_iff in Hb. destruct Hb as [Hb|Hb].
+  - left. apply in_flat_map in Hb. destruct Hb as (m & Hm & Hb). apply in_map_iff in Hb.
+    destruct Hb as (s & <- & Hs). now exists m, s.
+  - right. apply in_map_iff in Hb. destruct Hb as (s & <- & Hs). now exists s.
+Qed.
+
+Lemma runlength0_in_ensemble : In (RunLength 0) ensemble_decomposers.
+Proof. unfold ensemble_decomposers. apply in_app_iff. right. apply in_app_iff. left. now left. Qed.
+
+Theorem ensemble_hyps :
+  (forall m, In m ensemble_decomposers -> decomp_ok m) -> runlength_ones ->
+  (forall s, In s ensemble_seqalgs -> seqalg_ok s) ->
+  forall a, In a ensemble -> cfg_hyps a.
+Proof.
+  intros Hd Ho Hs a Ha. destruct (ensemble_members a Ha) as [(m & s & -> & Hm & Hs')|(s & -> & Hs')]; cbn [cfg_hyps].
+  - split; [now apply Hd|now apply Hs].
+  - split; [apply Hd, runlength0_in_ensemble|]. split; [exact Ho|now apply Hs].
+Qed.
+
+(* the ensemble as data *)
+Lemma ensemble_length : length ensemble = 200%nat.
+Proof. vm_compute. reflexivity. Qed.
+
+(* ------------------------------------------------------------------------------------------ *)
+(* the statements of props/C01.v in unfolded form *)
+
+Definition good_result_u (n : Z) (r : result) : Prop :=
+  res_err r = None /\ is_chain (res_chain r) /\ last (res_chain r) 0 = n /\
+  length (res_program r) = (length (res_chain r) - 1)%nat /\
+  evaluate (res_program r) = Ok (res_chain r).
+
+Lemma chain_for_execute a n orc : chain_for n (find_chain a n orc) ->
+  exists r, execute a n orc = Ok r /\ good_result_u n r.
+Proof.
+  intros (c & E & Hc & Hl). destruct (execute_complete a n orc c E Hc Hl) as [p Hp].
+  exists (mkResult None c p). split; [exact Hp|]. split; [reflexivity|]. exact (execute_sound a n orc _ Hp eq_refl).
+Qed.
+
+Theorem binary_execute a : a = ABinary \/ a = AOpt ABinary -> forall n orc, 1 <= n ->
+  exists r, execute a n orc = Ok r /\ good_result_u n r.
+Proof.
+  intros Ha n orc Hn. apply chain_for_execute. destruct (rtl_ok n Hn) as (c & Ec & Hc & _ & Hl).
+  destruct Ha as [->| ->]; cbn [find_chain]; rewrite Ec.
+  - now exists c.
+  - cbn [obind]. destruct (optimize_valid c Hc) as (c' & Eo & Hc' & _ & _ & Hl' & _).
+    exists c'. split; [exact Eo|]. split; [exact Hc'|congruence].
+Qed.
+
+Theorem any_configuration a : cfg_hyps a ->
+  forall n orc, 1 <= n -> Z.of_N (bitlen n) < 2 ^ 64 ->
+  (exists r, execute a n orc = Ok r /\ good_result_u n r) \/
+  (orc <> None /\ execute a n orc = Ok (mkResult (Some ($"sortoracle")) [] [])).
+Proof.
+  intros H n orc Hn Hb. destruct (find_chain_ok_all a H n orc Hn Hb) as [Hc|[Ho E]].
+  - left. now apply chain_for_execute.
+  - right. split; [exact Ho|]. unfold execute. rewrite E. reflexivity.
+Qed.
+
+Theorem ensemble_partial :
+  (forall m, In m ensemble_decomposers -> decomp_ok m) -> runlength_ones ->
+  (forall s, In s ensemble_seqalgs -> seqalg_ok s) ->
+  forall a, In a ensemble ->
+  forall n orc, 1 <= n -> Z.of_N (bitlen n) < 2 ^ 64 ->
+  (exists r, execute a n orc = Ok r /\ good_result_u n r) \/
+  (orc <> None /\ execute a n orc = Ok (mkResult (Some ($"sortoracle")) [] [])).
+Proof. intros Hd Ho Hs a Ha. apply any_configuration. now apply ensemble_hyps. Qed.
+
+Theorem ensemble_shape : length ensemble = 200%nat /\
+  forall a, In a ensemble ->
+    (exists m s, a = AOpt (ADict m s) /\ In m ensemble_decomposers /\ In s ensemble_seqalgs) \/
+    (exists s, a = AOpt (ARuns s) /\ In s ensemble_seqalgs).
+Proof. split; [exact ensemble_length|exact ensemble_members]. Qed.
